@@ -214,8 +214,7 @@ def write_replay(scn, plan, viol, dg, run_seed):
             },
             f,
             indent=1,
-            sort_keys=True,
-        )
+        )  # no sort_keys: the insertion order of metadata dicts inside ops is part of the plan
     return path
 
 
